@@ -38,6 +38,19 @@ def oracle(c, r):
     if op in ("idelete", "pdelete"):
         present = entry in t["es"]
         if not present:
+            # the library's entry equality is tolerant (math.isclose: 1e-9 relative; points also 1e-14 absolute): an
+            # entry equal to the argument in that sense IS the given entry; the first such entry is the one removed
+            import math
+            close = [e for e in t["es"] if e[-1] == entry[-1] and all(
+                math.isclose(a, b, abs_tol=1e-14 if op == "pdelete" else 0.0) for a, b in zip(e[:-1], entry[:-1]))]
+            if close:
+                if r[0] == "err":
+                    return Failure(dict(sig, clause="no-error", exc=r[1]), f"deleteEntry of an entry equal (isclose) to {close[0]} raised {r[1]}")
+                want = list(t["es"])
+                want.remove(close[0])
+                if r[1]["es"] != want or (r[1]["lo"], r[1]["hi"]) != (t["lo"], t["hi"]):
+                    return Failure(dict(sig, clause="delete-exactly"), f"after delete {r[1]['es']} expected {want}")
+                return None
             if r[0] == "err":
                 if r[3] != T.norm(t):
                     return Failure(dict(sig, clause="failed-delete-changes-nothing"), "tier changed by a failing deleteEntry")
